@@ -16,7 +16,7 @@ from .common import HEADER, Untranslatable, find_class, find_func, lbool, llist,
 MODELLED_FILTERS = ["abs", "length", "count", "default", "d", "first", "last", "upper", "lower", "safe", "escape", "e",
                     "forceescape", "string", "list", "sum", "join", "replace"]
 MODELLED_TESTS = ["defined", "undefined", "none", "odd", "even", "divisibleby", "string", "number", "integer", "boolean", "true",
-                  "false", "mapping", "sequence", "iterable", "callable", "escaped", "eq", "==", "equalto", "ne", "!=", "lt", "<",
+                  "false", "mapping", "sequence", "iterable", "callable", "escaped", "upper", "lower", "eq", "==", "equalto", "ne", "!=", "lt", "<",
                   "lessthan", "le", "<=", "gt", ">", "greaterthan", "ge", ">=", "in"]
 
 
